@@ -337,7 +337,7 @@ func execute(plan *Plan, tier string, seed int64, replayFile, only string) int {
 			stageNotes = append(stageNotes, desc)
 			fmt.Println("stage:", desc)
 			total.Merge(stage)
-			if hasUnknown(plan.ID, stage.Violations) {
+			if anyConfirmed(plan, stage.Violations) {
 				break
 			}
 			continue
@@ -391,7 +391,7 @@ func execute(plan *Plan, tier string, seed int64, replayFile, only string) int {
 			}
 		}
 		total.Merge(stage)
-		if hasUnknown(plan.ID, stage.Violations) {
+		if anyConfirmed(plan, stage.Violations) {
 			break // first (fewest-deviation) counterexample is the one to report
 		}
 	}
@@ -422,7 +422,7 @@ func execute(plan *Plan, tier string, seed int64, replayFile, only string) int {
 		if seenClass[v.Class] && len(confirmed) >= 3 {
 			continue
 		}
-		ok, note := confirm(plan, v)
+		ok, note := confirmOnce(plan, v)
 		if !ok {
 			internal = append(internal, "violation did not reproduce: "+note+" :: "+firstLine(v.Desc))
 			continue
@@ -456,6 +456,45 @@ func execute(plan *Plan, tier string, seed int64, replayFile, only string) int {
 	}
 	fmt.Printf("OK property=%s tier=%s evaluations=%d distinct=%d capped=%v wall=%.1fs\n", plan.ID, tier, total.Evaluations, total.DistinctCount(), total.Capped, time.Since(start).Seconds())
 	return 0
+}
+
+// confirmOnce is confirm with its verdict remembered per replay payload.
+var confirmMemo = map[string][2]string{}
+
+func confirmOnce(plan *Plan, v vlib.Violation) (bool, string) {
+	k := v.Class + "|" + string(v.Replay)
+	if m, ok := confirmMemo[k]; ok {
+		return m[0] == "y", m[1]
+	}
+	ok, note := confirm(plan, v)
+	if ok {
+		confirmMemo[k] = [2]string{"y", note}
+	} else {
+		confirmMemo[k] = [2]string{"n", note}
+	}
+	return ok, note
+}
+
+// anyConfirmed: does the stage hold a violation that is not a listed known finding and that
+// reproduces in fresh workers?  Only such a violation ends the plan early; a candidate that does
+// not reproduce is reported as an internal error at the end and the remaining stages still run.
+func anyConfirmed(plan *Plan, vs []vlib.Violation) bool {
+	known := knownClasses(plan.ID)
+	for _, v := range vs {
+		k := false
+		for _, c := range known {
+			if c == v.Class {
+				k = true
+			}
+		}
+		if k {
+			continue
+		}
+		if ok, _ := confirmOnce(plan, v); ok {
+			return true
+		}
+	}
+	return false
 }
 
 func hasUnknown(prop string, vs []vlib.Violation) bool {
